@@ -114,6 +114,7 @@ def check(case, ctx):
     nd = m.ndim
     fam = case["family"]
     base = " on dims=%r shape=%r" % (m.dims, m.shape)
+    vclasses = set()
     if fam == 'flatten':
         for n in range(1, nd + 1):
             for sub in itertools.permutations(m.dims, n):
@@ -131,6 +132,9 @@ def check(case, ctx):
                         arg = tuple(sub) if form == 'tuple' else list(sub)
                         fn = lambda arg=arg, kw=kw: a.flatten(arg, **kw)
                     label = "a.flatten(%s %r, insert=%r)" % (form, list(sub), ins) + base
+                    pos_ = [m.dims.index(d_) for d_ in sub]
+                    vclasses.add(('flatten', nd, n, 'inorder' if pos_ == sorted(pos_) else 'reordered',
+                                  'contiguous' if max(pos_) - min(pos_) == n - 1 else 'gaps', ins, form, sp["regime"]))
                     res, exc = ctx.call(label, fn, operands=(a,), meta='carry')
                     ctx.outcomes['flatten-variants'] += 1
                     if exc is not None:
@@ -174,7 +178,7 @@ def check(case, ctx):
                     msg = model.compare(model.observe(u), m, "a.flatten().unflatten(axis=%r)%s" % (ax, base))
                     if msg:
                         ctx.v(ID, "unflatten:all", msg)
-        return ('flatten', nd, sp["regime"], tuple(sorted(sp["kinds"])))
+        return [('flatten', nd, sp["regime"], tuple(sorted(sp["kinds"])))] + sorted(vclasses, key=str)
     if fam == 'reshape':
         out = None
         for rep in range(6):
